@@ -27,7 +27,7 @@ theorem sd_readArgs : ∀ nreq nopt mode ts args rest, readArgs (f+1) nreq nopt 
     simp only [Bool.and_eq_true, beq_iff_eq] at h0
     obtain ⟨rfl, rfl⟩ := h0
     exact ⟨[], [], [], [], by simp, by simp, by simp [WFa], by simp [WFa], by simp [WFa], by simp [WFa],
-      by simp [runOK]⟩
+      by simp [runOK, tight]⟩
   · rw [if_neg h0] at h
     obtain ⟨⟨g1, c1⟩, ts1, h1, h⟩ := Res.bind_eq_ok.mp h
     obtain ⟨⟨g2, c2⟩, ts2, h2, h⟩ := Res.bind_eq_ok.mp h
@@ -42,7 +42,7 @@ theorem sd_readArgs : ∀ nreq nopt mode ts args rest, readArgs (f+1) nreq nopt 
     have hy2 : SHyp skip0 ts2 := hy1.ofSuf (readArgReq_suf h2)
     obtain ⟨a1, k1, t1, w1, e1, s1, z1, p1⟩ := hAO nopt mode ts g1 c1 ts1 h1 hy r1
     obtain ⟨a2, k2, t2, w2, e2, s2, z2, p2⟩ := hAR nreq mode ts1 g2 c2 ts2 h2 hy1 r2
-    obtain ⟨a3, k3, t3, w3, ti3, e3, n3, m3⟩ := sd_phase3 skip0 f ih' mode c1 ts2 g3 c3 ts3 h3 hy2 r3
+    obtain ⟨a3, k3, t3, w3, ti3, e3, n3, m3, p3⟩ := sd_phase3 skip0 f ih' mode c1 ts2 g3 c3 ts3 h3 hy2 r3
     have hy3 : SHyp skip0 ts3 := by
       rw [← k3] at hy2; exact hy2.suffix
     obtain ⟨a4, k4, t4, w4, ti4, e4, n4, m4⟩ := sd_phase4 skip0 f ih' mode c2 ts3 g4 c4 ts4 h4 hy3 r4
@@ -142,81 +142,87 @@ theorem sd_readArgs : ∀ nreq nopt mode ts args rest, readArgs (f+1) nreq nopt 
       simp only at hp1 hp2
       have hc1 : 0 ≤ c1 := p1 hp2
       have hc2 : 0 ≤ c2 := p2 hp1
+      have hc3 : 0 ≤ c3 := p3 hc1
       simp only [argShape] at hshape
       rw [if_neg (by simp; omega)] at hshape
-      simp only [Bool.and_eq_true, decide_eq_true_eq, List.all_eq_true] at hshape
-      obtain ⟨⟨hs1, hs2⟩, hs3⟩ := hshape
-      rw [← t1, ← t2, ← t3, ← t4] at hs1 hs2 hs3
-      -- no continuation brackets
-      have ha3 : a3 = [] := by
-        cases a3 with
-        | nil => rfl
-        | cons x xs =>
-          exfalso
-          obtain ⟨hnx, hc1', _⟩ := m3 (by simp)
-          cases a2 with
-          | nil =>
-            rw [a2nil rfl] at hnx
-            rcases s1 with h | h
-            · exact hc1' h
-            · exact clash (by decide) hnx h
-          | cons b bs =>
-            have hd := (dropWhile_append_all (p := isBracketG) (treesA .bracket a1)
-              (treesA .brace (b :: bs) ++ (treesA .bracket (x :: xs) ++ treesA .brace a4))
-              (treesA_bracket_all a1) (by
-                intro y hy'
-                cases b
-                simp only [treesA_cons, treeArg, List.cons_append, List.head?_cons, Option.mem_def,
-                  Option.some.injEq] at hy'
-                subst hy'; rfl)).1
-            rw [hd] at hs2
-            have := hs2 (treeArg .bracket x) (by simp)
-            cases x
-            simp [treeArg, isBraceG] at this
-      subst ha3
-      obtain ⟨e32, hnx3⟩ := n3 rfl
+      simp only [decide_eq_true_eq] at hshape
+      rw [← t1, ← t2, ← t3, ← t4] at hshape
+      simp only [List.countP_append, countP_treesA_bracket, countP_treesA_brace, Nat.zero_add] at hshape
+      -- all required arguments were there, so the fourth phase reads nothing
+      have hc2z : c2 = 0 := by
+        rcases s2 with h | h | h
+        · exact h
+        · omega
+        · exfalso
+          -- cut off by the end of input: nothing follows, so the brace count is too small
+          have hn3 : nextIs TC.BracketBegin ts2 = false := nextIs_false_of_afterSp_nil (by decide) h.2
+          have ha3 : a3 = [] := by
+            cases a3 with
+            | nil => rfl
+            | cons x xs => have := (m3 (by simp)).1; rw [hn3] at this; cases this
+          subst ha3
+          obtain ⟨e32, _⟩ := n3 rfl
+          have hn4 : nextIs TC.GroupBegin ts3 = false := by
+            rw [e32]; exact nextIs_false_of_afterSp_nil (by decide) h.2
+          have ha4 : a4 = [] := by
+            cases a4 with
+            | nil => rfl
+            | cons y ys => have := (m4 (by simp)).1; rw [hn4] at this; cases this
+          subst ha4
+          simp only [List.length_nil] at hshape
+          omega
       have ha4 : a4 = [] := by
         cases a4 with
         | nil => rfl
-        | cons y ys =>
-          exfalso
-          obtain ⟨hnx, hc2', _⟩ := m4 (by simp)
-          rw [e32] at hnx
-          rcases s2 with h | h | h
-          · exact hc2' h
-          · omega
-          · rw [nextIs_false_of_afterSp_nil (by decide) h.2] at hnx; cases hnx
+        | cons y ys => exact absurd hc2z (m4 (by simp)).2.1
       subst ha4
       obtain ⟨e43, _⟩ := n4 rfl
-      simp only [treesA_nil, List.append_nil] at hs1 hs2 hs3
-      have hsplit := dropWhile_append_all (p := isBracketG) (treesA .bracket a1) (treesA .brace a2)
-        (treesA_bracket_all a1) (by
-          intro y hy'
-          exact (treesA_brace_all a2 y (List.mem_of_mem_head? hy')).2)
-      rw [hsplit.1, treesA_length] at hs3
-      rw [hsplit.2, treesA_length] at hs1
+      simp only [List.length_nil] at hshape
+      have h32 : a3 = [] ∨ a2 ≠ [] := by
+        cases a3 with
+        | nil => left; rfl
+        | cons x xs =>
+          right
+          intro he
+          obtain ⟨hnx, hc1', _⟩ := m3 (by simp)
+          rw [a2nil he] at hnx
+          rcases s1 with h | h
+          · exact hc1' h
+          · exact clash (by decide) hnx h
       unfold runOK
       rw [if_neg (by simp; omega), if_pos (by simp [hp1, hp2])]
       simp only [List.isEmpty_nil, Bool.true_and, Bool.and_eq_true, decide_eq_true_eq, Bool.or_eq_true,
-        Bool.not_eq_true', List.isEmpty_eq_false_iff]
-      refine ⟨⟨hs1, hs3⟩, ?_⟩
-      rw [e43, e32]
-      by_cases hz : c1 = 0
+        Bool.not_eq_true', List.isEmpty_eq_false_iff, List.isEmpty_iff, ti3]
+      refine ⟨⟨⟨h32, by omega⟩, by omega⟩, ?_⟩
+      rw [e43]
+      by_cases hz : c3 = 0
       · left; omega
       · right
-        have hnx' : nextIs TC.BracketBegin ts2 = false := by
-          rcases hnx3 with h | h
-          · exact h
+        cases a3 with
+        | cons x xs =>
+          rcases (m3 (by simp)).2.2 with h | h
           · exact absurd h hz
-        refine ⟨hdCat_ne_of_nextIs_false hnx', ?_⟩
-        cases a2 with
-        | cons b bs => left; simp
+          · exact h
         | nil =>
-          right
-          rw [a2nil rfl]
-          rcases s1 with h | h
-          · exact absurd h hz
-          · exact h
+          obtain ⟨e32, hnx3⟩ := n3 rfl
+          simp only [List.length_nil, Int.natCast_zero, Int.sub_zero] at e3
+          simp only [if_true, Bool.and_eq_true, Bool.or_eq_true, Bool.not_eq_true',
+            List.isEmpty_eq_false_iff]
+          rw [e32]
+          have hz1 : c1 ≠ 0 := by omega
+          have hnx' : nextIs TC.BracketBegin ts2 = false := by
+            rcases hnx3 with h | h
+            · exact h
+            · exact absurd h hz1
+          refine ⟨hdCat_ne_of_nextIs_false hnx', ?_⟩
+          cases a2 with
+          | cons b bs => left; simp
+          | nil =>
+            right
+            rw [a2nil rfl]
+            rcases s1 with h | h
+            · exact absurd h hz1
+            · exact h
 
 theorem sd_readCommand : ∀ nreq nopt mode ts n args rest,
     readCommand (f+1) nreq nopt false mode ts = .ok ((n, args), rest) →
